@@ -421,6 +421,151 @@ theorem over_folds_single_calls (w : World α) (c : Ctx α) (id : Nat) (sig : Si
 example : overPy (α := Nat) ⟨fun _ _ as => as.sum⟩ [[]] 3 [.y, .z] [1, 2, 3, 4] []
     = (.val 10, [⟨3, false, [1, 2]⟩, ⟨3, false, [3, 3]⟩, ⟨3, false, [6, 4]⟩]) := by decide
 
+/-! ### the other adverbs: one application per member / pair / step, in order, repeats included -/
+
+theorem seqSpec_log (w : World α) (id : Nat) (k : Bool) (ts : List (List α)) (log : Log α) :
+    (seqSpec w id k ts log).2 = log ++ ts.map (fun t => ⟨id, k, t⟩) := by
+  induction ts generalizing log with
+  | nil => simp [seqSpec]
+  | cons t ts ih => simp [seqSpec, ih]
+
+theorem seqSpec_length (w : World α) (id : Nat) (k : Bool) (ts : List (List α)) (log : Log α) :
+    (seqSpec w id k ts log).1.length = ts.length := by
+  induction ts generalizing log with
+  | nil => simp [seqSpec]
+  | cons t ts ih => simp [seqSpec, ih]
+
+/-- a sequence of applications (what Each, Each-2, Each-Left, Each-Right and Each-Pair do with
+    a callable): for EVERY list of argument tuples — equal tuples included, as the members of
+    "hello" or [7 7 7] produce — exactly one invocation per tuple, in order, with exactly that
+    tuple; the i-th result is the i-th invocation's own return value -/
+theorem seq_calls_once_per_tuple (w : World α) (c : Ctx α) (id : Nat) (sig : Sig)
+    (ts : List (List α)) (log : Log α) (hs : validSig sig = true)
+    (hl : ∀ t ∈ ts, t.length = nParams sig) :
+    seqPy w c id sig ts log
+      = (.list (seqSpec w id (providesKlong sig) ts log).1,
+         log ++ ts.map (fun t => ⟨id, providesKlong sig, t⟩)) := by
+  induction ts generalizing log with
+  | nil => simp [seqPy, seqPyWith, seqSpec]
+  | cons t ts ih =>
+    have hc := callable_gets_args_in_order w c id sig t log hs (hl t (by simp))
+    have ih' := ih (log ++ [⟨id, providesKlong sig, t⟩]) (fun u hu => hl u (by simp [hu]))
+    simp only [seqPy, applyPy] at ih' hc ⊢
+    simp only [seqPyWith, hc, ih', seqSpec, List.map_cons, List.append_assoc, List.cons_append,
+      List.nil_append]
+
+/-- repeats are not shared: f'"ll" makes two invocations and the second result is the second
+    invocation's return value -/
+example : seqPy (α := Nat) ⟨fun _ i _ => 100 + i⟩ [[]] 3 [.klong, .y] [[7], [7], [7]] []
+    = (.list [100, 101, 102], [⟨3, true, [7]⟩, ⟨3, true, [7]⟩, ⟨3, true, [7]⟩]) := by decide
+
+theorem pairsOf_length2 (es : List α) : ∀ t ∈ pairsOf es, t.length = 2 := by
+  induction es with
+  | nil => simp [pairsOf]
+  | cons a rest ih =>
+    cases rest with
+    | nil => simp [pairsOf]
+    | cons b rest' =>
+      intro t ht
+      simp only [pairsOf, List.mem_cons] at ht
+      rcases ht with ht | ht
+      · subst ht; rfl
+      · exact ih t ht
+
+/-- Each-Pair `f:'a` (two or more members): one invocation per adjacent pair, in order -/
+theorem each_pair_calls_once_per_pair (w : World α) (c : Ctx α) (id : Nat) (sig : Sig)
+    (a b : α) (rest : List α) (log : Log α) (hs : validSig sig = true) (h2 : nParams sig = 2) :
+    eachPairPyWith lambdaArgs w c id sig (a :: b :: rest) log
+      = (.list (seqSpec w id (providesKlong sig) (pairsOf (a :: b :: rest)) log).1,
+         log ++ (pairsOf (a :: b :: rest)).map (fun t => ⟨id, providesKlong sig, t⟩)) := by
+  simp only [eachPairPyWith]
+  exact seq_calls_once_per_tuple w c id sig _ log hs (fun t ht => by rw [h2]; exact pairsOf_length2 _ t ht)
+
+/-- Each-Left `a f:\b`: f(a;b1), …, f(a;bN) — one invocation per member of b, in order -/
+theorem each_left_calls_once_per_member (w : World α) (c : Ctx α) (id : Nat) (sig : Sig)
+    (a : α) (bs : List α) (log : Log α) (hs : validSig sig = true) (h2 : nParams sig = 2) :
+    eachLeftPyWith lambdaArgs w c id sig a bs log
+      = (.list (seqSpec w id (providesKlong sig) (bs.map fun b => [a, b]) log).1,
+         log ++ bs.map (fun b => ⟨id, providesKlong sig, [a, b]⟩)) := by
+  have := seq_calls_once_per_tuple w c id sig (bs.map fun b => [a, b]) log hs
+    (fun t ht => by
+      obtain ⟨b, _, rfl⟩ := List.mem_map.mp ht
+      simp [h2])
+  simpa [eachLeftPyWith, seqPy, List.map_map, Function.comp_def] using this
+
+/-- Each-Right `a f:/b`: f(b1;a), …, f(bN;a) -/
+theorem each_right_calls_once_per_member (w : World α) (c : Ctx α) (id : Nat) (sig : Sig)
+    (a : α) (bs : List α) (log : Log α) (hs : validSig sig = true) (h2 : nParams sig = 2) :
+    eachRightPyWith lambdaArgs w c id sig a bs log
+      = (.list (seqSpec w id (providesKlong sig) (bs.map fun b => [b, a]) log).1,
+         log ++ bs.map (fun b => ⟨id, providesKlong sig, [b, a]⟩)) := by
+  have := seq_calls_once_per_tuple w c id sig (bs.map fun b => [b, a]) log hs
+    (fun t ht => by
+      obtain ⟨b, _, rfl⟩ := List.mem_map.mp ht
+      simp [h2])
+  simpa [eachRightPyWith, seqPy, List.map_map, Function.comp_def] using this
+
+/-- Each-2 `a f'b`: f(a1;b1), …, one invocation per position -/
+theorem each2_calls_once_per_position (w : World α) (c : Ctx α) (id : Nat) (sig : Sig)
+    (as bs : List α) (log : Log α) (hs : validSig sig = true) (h2 : nParams sig = 2) :
+    each2PyWith lambdaArgs w c id sig as bs log
+      = (.list (seqSpec w id (providesKlong sig) (List.zipWith (fun a b => [a, b]) as bs) log).1,
+         log ++ (List.zipWith (fun a b => [a, b]) as bs).map (fun t => ⟨id, providesKlong sig, t⟩)) := by
+  refine seq_calls_once_per_tuple w c id sig _ log hs (fun t ht => ?_)
+  obtain ⟨i, hi, rfl⟩ := List.mem_iff_getElem.mp ht
+  simp [h2]
+
+theorem scanSpec_log (w : World α) (id : Nat) (k : Bool) (acc : α) (es : List α) (log : Log α) :
+    (scanSpec w id k acc es log).2 = (overSpec w id k acc es log).2 ∧
+    (scanSpec w id k acc es log).1.length = es.length ∧
+    ((scanSpec w id k acc es log).1.getLast?).getD acc = (overSpec w id k acc es log).1 := by
+  induction es generalizing acc log with
+  | nil => simp [scanSpec, overSpec]
+  | cons e es ih =>
+    obtain ⟨h1, h2, h3⟩ := ih (w.ret id log.length [acc, e]) (log ++ [⟨id, k, [acc, e]⟩])
+    refine ⟨by simp [scanSpec, overSpec, h1], by simp [scanSpec, h2], ?_⟩
+    simp only [scanSpec, overSpec]
+    rw [← h3]
+    cases hq : (scanSpec w id k (w.ret id log.length [acc, e]) es (log ++ [⟨id, k, [acc, e]⟩])).1 with
+    | nil => simp
+    | cons q qs =>
+      cases hl : (q :: qs).getLast? with
+      | none => simp at hl
+      | some v => simp [hl]
+
+/-- Scan `f\a`: the same invocations as Over (one per further member, accumulated value first),
+    every intermediate value kept; the last one is the value of `f/a` -/
+theorem scan_folds_single_calls (w : World α) (c : Ctx α) (id : Nat) (sig : Sig)
+    (a : α) (es : List α) (log : Log α) (hs : validSig sig = true) (h2 : nParams sig = 2) :
+    scanPy w c id sig (a :: es) log
+      = (.list (a :: (scanSpec w id (providesKlong sig) a es log).1),
+         (overSpec w id (providesKlong sig) a es log).2) := by
+  have key : ∀ (acc : α) (es : List α) (log : Log α),
+      scanFromWith lambdaArgs w c id sig acc es log
+        = (.list (scanSpec w id (providesKlong sig) acc es log).1,
+           (scanSpec w id (providesKlong sig) acc es log).2) := by
+    intro acc es
+    induction es generalizing acc with
+    | nil => intro log; simp [scanFromWith, scanSpec]
+    | cons e es ih =>
+      intro log
+      have hc := callable_gets_args_in_order w c id sig [acc, e] log hs (by simp [h2])
+      simp only [applyPy] at hc
+      simp only [scanFromWith, hc, ih, scanSpec]
+  simp only [scanPy, scanPyWith, key, (scanSpec_log w id (providesKlong sig) a es log).1]
+
+example : scanPy (α := Nat) ⟨fun _ _ as => as.sum⟩ [[]] 3 [.y, .z] [1, 1, 1] []
+    = (.list [1, 2, 3], [⟨3, false, [1, 1]⟩, ⟨3, false, [2, 1]⟩]) := by decide
+
+/-- Over-Neutral `a f/b` is the fold started from `a` -/
+theorem over_neutral_folds_single_calls (w : World α) (c : Ctx α) (id : Nat) (sig : Sig)
+    (a : α) (bs : List α) (log : Log α) (hs : validSig sig = true) (h2 : nParams sig = 2) :
+    overNeutralPyWith lambdaArgs w c id sig a bs log
+      = (.val (overSpec w id (providesKlong sig) a bs log).1,
+         (overSpec w id (providesKlong sig) a bs log).2) := by
+  have := over_folds_single_calls w c id sig a bs log hs h2
+  simpa [overNeutralPyWith, overPy, overPyWith] using this
+
 /-! ### the store -/
 
 /-- `klong[n] = v` for a data value: `klong[n]` reads the same value back, programs see it as
